@@ -185,3 +185,35 @@ func CountedLoop(xs []int) int {
 	}
 	return s
 }
+
+// BadDropLast lowers the bound for the element under the cursor but never moves the last element into its place:
+// the examined element stays and the last one is lost.
+func BadDropLast(c *Clause, model []int) {
+	n := c.Len()
+	j := 0
+	for j < n {
+		l := c.Get(j)
+		if model[l] == 0 {
+			j++
+		} else {
+			n--
+		}
+	}
+	c.Shrink(n)
+}
+
+// BadMoveWrongSlot moves the element one before the new bound.
+func BadMoveWrongSlot(c *Clause, model []int) {
+	n := c.Len()
+	j := 0
+	for j < n {
+		l := c.Get(j)
+		if model[l] == 0 {
+			j++
+		} else {
+			n--
+			c.Set(j, c.Get(n-1))
+		}
+	}
+	c.Shrink(n)
+}
